@@ -15,6 +15,11 @@ map; the two closures the ensemble maps (_step / _solve) are siblings around
 their run call.
 Round 4: no function of the solver modules keeps, mutates or hands on an object
 built once as a default argument.
+Round 5 (hunt): random_seed never swallows numpy's refusal of a seed (repair
+837d2bb); every user of self._map materialises the result before indexing it,
+as the ensembles do (repair 3549835); no Set* method writes attributes of its
+arguments (SetNestedSolver no longer sets NP on the solver class; repair
+3fcd340).
 NOT decided: identity of trajectories, step-wise vs run-to-completion equality,
 process maps, hash randomisation of message strings.
 """
@@ -47,7 +52,7 @@ WRITE_TABLE = {
     'SetTermination': {'_collapse', '_termination'},
     'SetSaveFrequency': {'_saveiter', '_state'},
     'SetMapper': {'_map', '_mapconfig'},
-    'SetNestedSolver': {'_solver'},
+    'SetNestedSolver': {'_solver', '_NP'},      # _NP: the members' population size given with the nested solver class
     'SetDistribution': {'_dist'},
     'enable_signal_handler': {'_handle_sigint'},
     'disable_signal_handler': {'_handle_sigint'},
@@ -445,3 +450,121 @@ def both_modes_give_members_the_ensembles_objective(ctx):
         ctx.check(bool(bound), 'AbstractEnsembleSolver.%s.%s#objective' % (meth, inner), 'the objective a member receives is bound from self._bootstrap_objective(...) in %s' % meth,
                   'in %s the members are driven with the method\'s own `cost` argument, not with self._bootstrap_objective(...): a configured nested solver instance (which has no objective of its own) gets None in step-wise mode and raises, while run-to-completion mode works' % meth,
                   f, g.node, statement='member objective not bootstrapped in %s' % meth)
+
+
+@rule('C07.m', min_instances=1)
+def random_seed_sets_both_global_sources(ctx):
+    """mystic draws from two global sources - python's random and numpy.random (sampled / multinormal start points, Buckshot / Sparsity members) - and random_seed is the one way to make a run repeatable: for every seed python's random.seed accepts it must leave numpy seeded too, or fail loudly. numpy refuses negative, >= 2**32, float, str and bytes seeds (TypeError / ValueError): a handler that swallows that error and returns leaves numpy's stream unseeded - two runs with the same seed differ. Every handler that covers the numpy seed call re-seeds numpy itself or raises; only a handler for ImportError (numpy absent) may return"""
+    f = ctx.func('mystic.tools:random_seed')
+    aliases = set()
+    for n in ast.walk(f.node):
+        if isinstance(n, ast.ImportFrom) and n.module == 'numpy':
+            aliases |= set(a.asname or a.name for a in n.names if a.name == 'random')
+        if isinstance(n, ast.ImportFrom) and n.module == 'numpy.random':
+            aliases |= set(a.asname or a.name for a in n.names if a.name == 'seed')
+        if isinstance(n, ast.Import):
+            aliases |= set((a.asname or a.name) for a in n.names if a.name in ('numpy', 'numpy.random'))
+
+    def np_seed(c):
+        if not isinstance(c, ast.Call):
+            return False
+        txt = unparse(c.func)
+        return (txt.endswith('.seed') and txt.split('.')[0] in aliases and not (txt == 'random.seed' and 'random' not in aliases)) or (txt == 'seed' and 'seed' in aliases)
+    seeds = [c for c in ast.walk(f.node) if np_seed(c)]
+    # `from numpy import random` rebinds the name random: calls before the import are python's
+    imp = [n for n in ast.walk(f.node) if isinstance(n, ast.ImportFrom) and n.module == 'numpy' and any(a.name == 'random' and not a.asname for a in n.names)]
+    if imp:
+        seeds = [c for c in seeds if (c.lineno, c.col_offset) > (imp[0].lineno, imp[0].col_offset)]
+    ctx.need(seeds, 'random_seed: no call seeds numpy.random')
+    n = 0
+    for t in [x for x in ast.walk(f.node) if isinstance(x, ast.Try)]:
+        covered = [c for c in seeds if any(c is y for st in t.body for y in ast.walk(st))]
+        if not covered:
+            continue
+        for h in t.handlers:
+            n += 1
+            names = set()
+            if h.type is not None:
+                names = set(x.id for x in ast.walk(h.type) if isinstance(x, ast.Name))
+            only_import = bool(names) and names <= {'ImportError', 'ModuleNotFoundError'}
+            reseeds = any(np_seed(y) for st in h.body for y in ast.walk(st))
+            raises = any(isinstance(y, ast.Raise) for st in h.body for y in ast.walk(st))
+            ctx.check(only_import or reseeds or raises, 'random_seed#handler@%s' % (unparse(h.type) if h.type is not None else 'bare'), 'a refused numpy seed is replaced or reported',
+                      'random_seed swallows the error numpy.random.seed raises for a seed it does not accept (negative, >= 2**32, float, str, bytes - all legal for random.seed) and returns normally: '
+                      'python\'s stream is seeded, numpy\'s is not, and two runs with the same seed draw different start points', f, h)
+    if n == 0:
+        ctx.ok('random_seed#unguarded', 'numpy.random.seed is called outside any handler: a refused seed is reported to the caller', f, seeds[0])
+
+
+@rule('C07.n', min_instances=3)
+def map_results_are_materialised(ctx):
+    """SetMapper accepts any map with the signature of the builtin - mystic.pools.SerialPool().map and the builtin itself return ITERATORS, pool maps return lists. Siblings must agree: the ensemble solvers wrap the result of self._map(...) in list(...) before they look at it; every other user of self._map does the same (or only iterates over it once) - a result that is indexed, measured with len() or traversed twice as it comes back works with a list-returning map and raises TypeError / sees nothing with an iterator-returning one, so the outcome would depend on the map supplied"""
+    n = 0
+    for mname, m in sorted(ctx.model.modules.items()):
+        if mname.startswith('mystic.tests'):
+            continue
+        for q, fi in sorted(m.funcs.items()):
+            sn = selfname_of(fi) if fi.cls else None
+            if not sn:
+                continue
+            for c in calls_where(fi.node, lambda c: self_call(c, '_map', sn), include_lambda=False):
+                n += 1
+                ctx.touch(fi)
+                par = parent(c)
+                wrapped = isinstance(par, ast.Call) and isinstance(par.func, ast.Name) and par.func.id in ('list', 'tuple', 'asarray', 'array') and par.args and par.args[0] is c
+                if wrapped:
+                    ctx.ok('%s#_map-result' % fi.qualname, 'result of self._map materialised with %s(...)' % par.func.id, fi, c)
+                    continue
+                st = enclosing_stmt(c)
+                name = st.targets[0].id if isinstance(st, ast.Assign) and len(st.targets) == 1 and isinstance(st.targets[0], ast.Name) and st.value is c else None
+                if name is None:
+                    it_only = isinstance(par, (ast.For, ast.comprehension)) and par.iter is c
+                    ctx.need(it_only, '%s: cannot tell how the result of self._map is used (%s)' % (fi.qualname, unparse(st)[:60]))
+                    ctx.ok('%s#_map-result' % fi.qualname, 'result of self._map only iterated once', fi, c)
+                    continue
+                uses = [u for u in ast.walk(fi.node) if isinstance(u, ast.Name) and u.id == name and isinstance(u.ctx, ast.Load) and (u.lineno, u.col_offset) > (c.lineno, c.col_offset)]
+                random_access = [u for u in uses if (isinstance(parent(u), ast.Subscript) and parent(u).value is u) or
+                                 (isinstance(parent(u), ast.Call) and isinstance(parent(u).func, ast.Name) and parent(u).func.id == 'len')]
+                ctx.check(not random_access and len(uses) <= 1, '%s#_map-result' % fi.qualname, 'result of self._map is materialised before it is indexed',
+                          '%s binds %s to the raw result of self._map and then indexes / measures it (%d uses): with a map that returns an iterator (builtin map, mystic.pools.SerialPool().map) the step raises TypeError, '
+                          'with a list-returning map it works - the run depends on the map supplied' % (fi.qualname, name, len(uses)), fi, st)
+    ctx.need(n >= 3, 'expected >= 3 uses of self._map, found %d' % n)
+
+
+def stores_into_arguments(methods):
+    """[(method, parameter, attribute, node)]: `<param>.<attr> = ...` (or augmented) where <param> is a parameter of the method other than
+    self and has not been re-bound to a fresh object inside the method"""
+    out = []
+    for m in methods:
+        sn = selfname_of(m)
+        params = [a for a in m.args() if a != sn]
+        rebound = set(t_.id for st in stmts_of(m.node) if isinstance(st, ast.Assign) for t_ in st.targets if isinstance(t_, ast.Name))
+        for n in walk_no_nested(m.node):
+            if isinstance(n, ast.Attribute) and isinstance(n.ctx, ast.Store) and isinstance(n.value, ast.Name) and n.value.id in params and n.value.id not in rebound:
+                out.append((m, n.value.id, n.attr, n))
+    return out
+
+
+@rule('C07.o', min_instances=20)
+def configuration_is_kept_on_the_solver_not_on_its_arguments(ctx):
+    """a configuration method stores what it is given ON THE SOLVER: it never writes attributes of an object handed to it - in particular not of a solver CLASS (SetNestedSolver(cls, NP=n) used to set cls.NP: every later ensemble in the process, configured or not, then built members with that population size, and the setting was not part of a checkpoint because it did not live on the instance). All Set* methods of the solver hierarchy are scanned; positive control on a synthetic method"""
+    import types
+    probe = ast.parse('class E(object):\n    def SetNestedSolver(self, solver, **kwds):\n        self._solver = solver\n        solver.NP = kwds["NP"]\n')
+    for n in ast.walk(probe):
+        for c in ast.iter_child_nodes(n):
+            c._parent = n
+    fm = types.SimpleNamespace(node=probe.body[0].body[0], qualname='E.SetNestedSolver', args=lambda: ['self', 'solver'], cls=True, parent=None)
+    ctx.need(len(stores_into_arguments([fm])) == 1, 'argument-store detector lost its positive control')
+    from .c04 import AS
+    classes = [ctx.cls(AS)] + list(ctx.model.subclasses(ctx.cls(AS), strict=True))
+    methods = [m for k in classes for name, m in sorted(k.methods.items()) if name.startswith('Set')]
+    found = stores_into_arguments(methods)
+    for m in methods:
+        ctx.touch(m)
+    for m, p, a, node in found:
+        ctx.bad('%s#%s.%s' % (m.qualname, p, a), '%s writes the attribute %s of its argument %s: the setting lands on an object the solver does not own (a solver class is shared by every ensemble of the process) '
+                'instead of on the solver itself - later solvers inherit it and checkpoints lose it' % (m.qualname, a, p), m, enclosing_stmt(node))
+    flagged = set(id(m) for m, _, _, _ in found)
+    for m in methods:
+        if id(m) not in flagged:
+            ctx.ok('%s#arguments-untouched' % m.qualname, 'stores only into the solver', m, m.node)
